@@ -107,7 +107,12 @@ class _ProbeYMD:
         return self
 
 
-@lemma({"year": int, "month": int, "day": int, "n": int, "weeks": bool}, params=_date_params(), budget=150, thorough_budget=300, per_path=30,
+def _slow_params(tier, seed):
+    ps = _date_params()(tier, seed)
+    return ps if tier == "thorough" else [p for p in ps if not (p.startswith("Hebrew") or p.startswith("Um Al Qura") or p == "ISO")]
+
+
+@lemma({"year": int, "month": int, "day": int, "n": int, "weeks": bool}, params=_slow_params, budget=100, thorough_budget=300, per_path=30,
        bounds="every valid date x every n with 300 <= |n| <= 10**7 days (or weeks): the day number handed to the calendar's day->date "
               "conversion (C01) is exactly days(date) + n, and results outside the calendar range raise")
 def plusdays_slow(P):
@@ -124,7 +129,7 @@ def plusdays_slow(P):
         else:
             assume(300 <= n <= 10 ** 7 or -10 ** 7 <= n <= -300)
             amount = n
-        base = calc._get_start_of_year_in_days(year) + calc._get_days_from_start_of_year_to_start_of_month(year, month) + day - 1
+        base = d0._days_since_epoch            # the code's own coordinate (its correctness is C01.days)
         want = base + amount
         inr = cal._min_days <= want <= cal._max_days
         try:
@@ -147,7 +152,7 @@ REGULAR = ["ISO", "Julian", "Coptic", "Um Al Qura"]
 def _regular_params(tier, seed):
     out = [cs.P(c) for c in REGULAR if c != "Um Al Qura"]
     uq = cs.windows("Um Al Qura", 61)
-    out += [cs.P("Um Al Qura", *w) for w in (uq if tier == "thorough" else cs.pick(uq, seed, 1))]
+    out += [cs.P("Um Al Qura", *w) for w in (uq if tier == "thorough" else [])]      # ~140 s per window: thorough only
     isl = cs.ISLAMIC if tier == "thorough" else cs.pick(cs.ISLAMIC, seed, 1)
     for c in isl:
         ws = cs.windows(c, 60)
@@ -221,8 +226,8 @@ def addyears(P):
     return h, before
 
 
-@lemma({"y1": int, "m1": int, "d1": int, "y2": int, "m2": int, "d2": int}, params=lambda tier, seed: ["ISO", "Julian", "Coptic"], budget=240,
-       thorough_budget=500, per_path=40,
+@lemma({"y1": int, "m1": int, "d1": int, "y2": int, "m2": int, "d2": int}, params=lambda tier, seed: ["Julian", "Coptic"] + (["ISO"] if tier == "thorough" else []), budget=240,
+       thorough_budget=600, per_path=40,
        bounds="regular calendars, years within +-200 of year 2000 (Coptic: 1700..2100): months_between is maximal: start + k months lies "
               "between start and end and one more month overshoots (lexicographic order = day order by C01)")
 def months_between_maximal(P):
